@@ -217,6 +217,7 @@ CONFIGS = [
     {"ref": small_ref(6, "all-out"), "sens": 1.0, "k": 3, "L": 3},
     {"ref": small_ref(5, "mixed"), "sens": 2.0, "k": 2, "L": 2},
     {"ref": small_ref(8, "mixed"), "sens": 0.5, "k": 4, "L": None},
+    {"ref": small_ref(6, "mixed"), "sens": 0, "k": 2, "L": 2},
 ]
 
 
@@ -264,7 +265,7 @@ def strat_walk(tier):
         n = draw(st.integers(4, 30))
         k = draw(st.integers(2, min(5, n)))
         L = draw(st.one_of(st.none(), st.integers(k, 8)))
-        sens = draw(st.sampled_from([0.5, 1, 2]))
+        sens = draw(st.sampled_from([0, 0.0, 0.5, 1, 2, 2]))
         xs = st.integers(-16, 16).map(lambda v: v / 8 + 0.0625)
         flav = draw(st.sampled_from(["mixed", "mixed", "in", "out"]))
         ref = []
@@ -298,7 +299,7 @@ PROPERTY = {
     "id": "C19",
     "level": "model_checking",
     "rule": (
-        "interleavings: for 4 small reference batches (N=4..8, k=2..4, L=2..N) every sequence of up to 5 (quick) / 6 (thorough) calls over "
+        "interleavings: for 5 small reference batches (N=4..8, k=2..4, L=2..N, sensitivity 0..2) every sequence of up to 5 (quick) / 6 (thorough) calls over "
         "the alphabet {update in-margin, update out-of-margin, update with 2 rows, label correct, label wrong, label with wrong columns, label "
         "with 2 rows} is executed against MD3 (deterministic cloneable stub classifier that records the folds it is fitted / evaluated on, "
         "user margin function) in lockstep with the protocol model written from the statement; after every call drift_state, "
